@@ -62,7 +62,7 @@ func kvsJSON(l []kvp) [][2]string {
 func coqKvs(l []kvp) string {
 	s := make([]string, 0, len(l))
 	for _, e := range l {
-		s = append(s, fmt.Sprintf("(%s, %s)", hx.CoqBytes(e.k), hx.CoqBytes(e.v)))
+		s = append(s, fmt.Sprintf("(%s, %s)", sh.B(e.k), sh.B(e.v)))
 	}
 	return hx.CoqList(s)
 }
@@ -263,11 +263,11 @@ func runAPI(h *Hist, count func(string)) (coqOps []string, track uint32, fails [
 			case "put":
 				cache.Put(k, v)
 				r.cache[fk(stS, k)] = v
-				coqOps = append(coqOps, fmt.Sprintf("APut %s %s", hx.CoqBytes(k), hx.CoqBytes(v)))
+				coqOps = append(coqOps, fmt.Sprintf("APut %s %s", sh.B(k), sh.B(v)))
 			case "del":
 				cache.Delete(k)
 				r.cache[fk(stS, k)] = nil
-				coqOps = append(coqOps, fmt.Sprintf("ADel %s", hx.CoqBytes(k)))
+				coqOps = append(coqOps, fmt.Sprintf("ADel %s", sh.B(k)))
 			case "get":
 				got, err := cache.Get(k)
 				if err != nil {
@@ -276,21 +276,21 @@ func runAPI(h *Hist, count func(string)) (coqOps []string, track uint32, fails [
 				if want := r.get(fk(stS, k)); !bytes.Equal(got, want) {
 					fail(i, "get:wrong-value", "CacheDB.Get must return the most recent write", hx.Hex(got), hx.Hex(want))
 				}
-				coqOps = append(coqOps, fmt.Sprintf("AGet %s %s", hx.CoqBytes(k), hx.CoqBytes(got)))
+				coqOps = append(coqOps, fmt.Sprintf("AGet %s %s", sh.B(k), sh.B(got)))
 			case "iter":
 				got := drain(cache.NewIterator(k))
 				if want := stripFirst(r.list(append([]byte{stS}, k...))); !kvsEqual(got, want) {
 					fail(i, "iter:wrong-listing", "a prefix iterator returns exactly the live keys with the prefix", kvsJSON(got), kvsJSON(want))
 				}
-				coqOps = append(coqOps, fmt.Sprintf("AIter %s %s", hx.CoqBytes(k), coqKvs(got)))
+				coqOps = append(coqOps, fmt.Sprintf("AIter %s %s", sh.B(k), coqKvs(got)))
 			case "ovput":
 				overlay.Put(k, v)
 				r.overlay[string(k)] = v
-				coqOps = append(coqOps, fmt.Sprintf("AOvPut %s %s", hx.CoqBytes(k), hx.CoqBytes(v)))
+				coqOps = append(coqOps, fmt.Sprintf("AOvPut %s %s", sh.B(k), sh.B(v)))
 			case "ovdel":
 				overlay.Delete(k)
 				r.overlay[string(k)] = nil
-				coqOps = append(coqOps, fmt.Sprintf("AOvDel %s", hx.CoqBytes(k)))
+				coqOps = append(coqOps, fmt.Sprintf("AOvDel %s", sh.B(k)))
 			case "putcontract":
 				dc, err := payload.NewDeployCode(k, payload.NEOVM_TYPE, "n", "v", "a", "e", "d")
 				if err != nil {
@@ -299,7 +299,7 @@ func runAPI(h *Hist, count func(string)) (coqOps []string, track uint32, fails [
 				cache.PutContract(dc)
 				ad := dc.Address()
 				r.cache[fk(stC, ad[:])] = dc.ToArray()
-				coqOps = append(coqOps, fmt.Sprintf("APutContract %s %s", hx.CoqBytes(ad[:]), hx.CoqBytes(dc.ToArray())))
+				coqOps = append(coqOps, fmt.Sprintf("APutContract %s %s", sh.B(ad[:]), sh.B(dc.ToArray())))
 			case "getcontract":
 				getContract(cache, r, a, i, "getcontract", fail, &coqOps)
 			case "isdestroyed":
@@ -310,11 +310,11 @@ func runAPI(h *Hist, count func(string)) (coqOps []string, track uint32, fails [
 				if want := len(r.get(fk(stD, a[:]))) != 0; got != want {
 					fail(i, "isdestroyed:wrong", "IsContractDestroyed is true exactly when a marker is stored", got, want)
 				}
-				coqOps = append(coqOps, fmt.Sprintf("AIsDestroyed %s %s", hx.CoqBytes(a[:]), hx.CoqBool(got)))
+				coqOps = append(coqOps, fmt.Sprintf("AIsDestroyed %s %s", sh.B(a[:]), hx.CoqBool(got)))
 			case "setdestroyed":
 				cache.SetContractDestroyed(a, o.H)
 				r.setDestroyed(track, a, o.H)
-				coqOps = append(coqOps, fmt.Sprintf("ASetDestroyed %s %d", hx.CoqBytes(a[:]), o.H))
+				coqOps = append(coqOps, fmt.Sprintf("ASetDestroyed %s %d", sh.B(a[:]), o.H))
 				if track <= o.H {
 					cnt("marker:set")
 					if d, _ := cache.IsContractDestroyed(a); !d {
@@ -328,11 +328,11 @@ func runAPI(h *Hist, count func(string)) (coqOps []string, track uint32, fails [
 				if track <= o.H {
 					r.cache[fk(stD, a[:])] = nil
 				}
-				coqOps = append(coqOps, fmt.Sprintf("AUnsetDestroyed %s %d", hx.CoqBytes(a[:]), o.H))
+				coqOps = append(coqOps, fmt.Sprintf("AUnsetDestroyed %s %d", sh.B(a[:]), o.H))
 			case "deletecontract":
 				cache.DeleteContract(a, o.H)
 				r.deleteContract(track, a, o.H)
-				coqOps = append(coqOps, fmt.Sprintf("ADeleteContract %s %d", hx.CoqBytes(a[:]), o.H))
+				coqOps = append(coqOps, fmt.Sprintf("ADeleteContract %s %d", sh.B(a[:]), o.H))
 			case "migrate":
 				before := listAll()
 				oldL := listOf(a)
@@ -340,7 +340,7 @@ func runAPI(h *Hist, count func(string)) (coqOps []string, track uint32, fails [
 					fail(i, "migrate:error", "MigrateContractStorage returned an error on an in-memory store", err.Error(), nil)
 				}
 				r.migrate(track, a, b, o.H)
-				coqOps = append(coqOps, fmt.Sprintf("AMigrate %s %s %d", hx.CoqBytes(a[:]), hx.CoqBytes(b[:]), o.H))
+				coqOps = append(coqOps, fmt.Sprintf("AMigrate %s %s %d", sh.B(a[:]), sh.B(b[:]), o.H))
 				cnt(fmt.Sprintf("migrate:entries:%s", bucket(len(oldL))))
 				if a == b {
 					cnt("migrate:to-itself")
@@ -354,10 +354,10 @@ func runAPI(h *Hist, count func(string)) (coqOps []string, track uint32, fails [
 				if o.Op == "clean" {
 					err = cache.CleanContractStorage(a, o.H)
 					r.deleteContract(track, a, o.H)
-					coqOps = append(coqOps, fmt.Sprintf("AClean %s %d", hx.CoqBytes(a[:]), o.H))
+					coqOps = append(coqOps, fmt.Sprintf("AClean %s %d", sh.B(a[:]), o.H))
 				} else {
 					err = cache.CleanContractStorageData(a)
-					coqOps = append(coqOps, fmt.Sprintf("ACleanData %s", hx.CoqBytes(a[:])))
+					coqOps = append(coqOps, fmt.Sprintf("ACleanData %s", sh.B(a[:])))
 				}
 				r.cleanData(a)
 				if err != nil {
@@ -427,7 +427,7 @@ func getContract(cache *storage.CacheDB, r *ref, a common.Address, i int, what s
 		fail(i, "getcontract:wrong", "GetContract returns (nil, destroyed) for a marked address, else the stored record",
 			[]interface{}{hx.Hex(rec), destroyed}, []interface{}{hx.Hex(wantRec), wantD})
 	}
-	*coqOps = append(*coqOps, fmt.Sprintf("AGetContract %s %s %s", hx.CoqBytes(a[:]), hx.CoqOpt(dc != nil, hx.CoqBytes(rec)), hx.CoqBool(destroyed)))
+	*coqOps = append(*coqOps, fmt.Sprintf("AGetContract %s %s %s", sh.B(a[:]), hx.CoqOpt(dc != nil, sh.B(rec)), hx.CoqBool(destroyed)))
 }
 
 // checkMigrate is the direct property oracle for MigrateContractStorage: it looks only at what the
